@@ -6,7 +6,7 @@ from ..driver import Prop
 class C10(Prop):
     id = 'C10'
     design_ref = 'DESIGN.md section 4 / C10'
-    budgets = {'quick': 150000, 'thorough': 3000000}
+    budgets = {'quick': 150000, 'thorough': 1500000}
 
     def gen(self, rng, index, tier):
         return poolsim.gen_c10(rng)
